@@ -27,7 +27,7 @@ PLACEMENTS = {
 
 def plan(tier, seed, scale):
     q = tier == "quick"
-    return {"n_cases": int((1200 if q else 40000) * scale), "Ms": [1, 2, 3, 4, 5, 6] if q else [1, 2, 3, 4, 5, 6, 8, 12],
+    return {"n_cases": int((1200 if q else 400000) * scale), "Ms": [1, 2, 3, 4, 5, 6] if q else [1, 2, 3, 4, 5, 6, 8, 12],
             "until": 3, "timeout_s": 900 if q else 10800}
 
 
